@@ -74,11 +74,19 @@ func (f *in) Listen(onMsg func(msg []byte, milliseconds int32), conf drivers.Lis
 
 	f.last = time.Now()
 
+	// listening (again) after a stop must work
+	f.stopListening = false
+
+	var rd *drivers.Reader
+
 	stopFn = func() {
-		f.stopListening = true
+		// a stop function only stops its own listener, not one that started later
+		if f.rd == rd {
+			f.stopListening = true
+		}
 	}
 
-	f.rd = drivers.NewReader(conf, func(m []byte, ms int32) {
+	rd = drivers.NewReader(conf, func(m []byte, ms int32) {
 		msg := midi.Message(m)
 
 		if msg.Is(midi.ActiveSenseMsg) && !conf.ActiveSense {
@@ -98,7 +106,8 @@ func (f *in) Listen(onMsg func(msg []byte, milliseconds int32), conf drivers.Lis
 		//	f.wg.Done()
 		//fmt.Println("msg handled")
 	})
-	f.rd.Reset()
+	rd.Reset()
+	f.rd = rd
 	return stopFn, nil
 }
 
@@ -143,7 +152,8 @@ func (f *out) Send(bt []byte) error {
 		return drivers.ErrPortClosed
 	}
 
-	if f.stopListening {
+	// without a listener the message is dropped
+	if f.stopListening || f.rd == nil {
 		return nil
 	}
 
